@@ -300,10 +300,83 @@ def worker(case, led):
                       "the three algorithms disagree", (mname, seed, trial, "algos"), {}, rep)
 
 
+def w_regroup(case, led):
+    """one list of term OBJECTS handed to several models that group the same degrees of freedom into sites differently (all levels on one multi-electron site,
+    one site per level, a mixed grouping), in every order of construction: each operator is the dense sum for ITS model"""
+    _, seed, tier = case
+    from renormalizer.model import Model, Op, basis as ba
+    from renormalizer.mps import Mpo
+    rng = np.random.default_rng([seed, 1717])
+    nlev = 3
+    eps = rng.uniform(-0.5, 0.5, size=nlev)
+    terms = []
+    for i in range(nlev):
+        terms.append(Op(r"a^\dagger a", [i, i], float(eps[i])))
+        terms.append(Op(r"a^\dagger a", [i, i], float(rng.uniform(0.2, 0.6))) * Op("x", "v"))
+    for i in range(nlev):
+        for j in range(nlev):
+            if i != j and rng.random() < 0.8:
+                terms.append(Op(r"a^\dagger a", [i, j], complex(rng.uniform(-0.4, 0.4), rng.uniform(-0.2, 0.2))))
+    terms.append(Op("p^2", "v", 0.5))
+    terms.append(Op("x^2", "v", 0.3))
+
+    def mk(kind):
+        sho = ba.BasisSHO("v", omega=0.7, nbas=3)
+        if kind == "one multi-electron site":
+            return Model([ba.BasisMultiElectron(list(range(nlev)), [0] * nlev), sho], [])
+        if kind == "one site per level":
+            return Model([ba.BasisSimpleElectron(i) for i in range(nlev)] + [sho], [])
+        return Model([ba.BasisMultiElectronVac([0, 1]), sho, ba.BasisSimpleElectron(2)], [])     # (a single creator on a shared site needs the variant with a vacuum state)
+    kinds = ["one multi-electron site", "one site per level", "mixed grouping"]
+    for order in ([0, 1, 2], [1, 0, 2], [2, 1, 0]):
+        for algo in ALGOS:
+            for k in order:
+                kind = kinds[k]
+                key = ("regroup", seed, tuple(order), algo, kind)
+                rep = {"grouping": kind, "construction_order": [kinds[i] for i in order], "algo": algo, "terms": [repr(t) for t in terms], "seed": seed,
+                       "how": "the SAME list of Op objects is passed to Mpo(model, terms) for each grouping in this order"}
+                try:
+                    model = mk(kind)
+                    mpo = Mpo(model, terms, algo=algo)
+                    ref = U.dense_terms(model, terms)
+                    err = float(np.abs(S.dense(mpo) - ref).max())
+                    led.check(err <= 1e-12 * max(1.0, float(np.abs(ref).max())), "post:Mpo.__init__:same_term_objects_under_another_site_grouping", "Mpo.__init__",
+                              f"{kind} (built after {[kinds[i] for i in order[:order.index(k)]]}): dense(MPO) differs from the dense sum for this model by {err:.2e}", key, {"algo": algo, "grouping": kind}, rep)
+                except Exception as e:
+                    led.check(False, "post:Mpo.__init__:total", "Mpo.__init__", f"{kind}: raised {type(e).__name__}: {e}", key, {"algo": algo}, rep)
+
+
+def w_wrappers(case, led):
+    """the convenience constructors Mpo.onsite / Mpo.ph_onsite / Mpo.intersite build the term list they document and hand it to the same construction"""
+    _, seed, tier = case
+    from renormalizer.model import Model, Op, basis as ba
+    from renormalizer.mps import Mpo
+    rng = np.random.default_rng([seed, 1718])
+    basis = [ba.BasisSimpleElectron("e0"), ba.BasisSHO("v0", omega=0.9, nbas=3), ba.BasisSimpleElectron("e1"), ba.BasisSimpleElectron("e2")]
+    dip = {"e0": 0.7, "e1": complex(-0.3, 0.4), "e2": 1.9}
+    model = Model(basis, [], dipole=dip)
+    for opera in (r"a^\dagger", "a", r"a^\dagger a"):
+        for dipole in (False, True):
+            for dof_set in (None, ["e2"], ["e2", "e0"], ["e1", "e2"], ["e0"], ["e0", "e1", "e2"]):
+                key = ("onsite", seed, opera, dipole, str(dof_set))
+                rep = {"opera": opera, "dipole": dipole, "dof_set": dof_set, "model_dipole": {k: str(v) for k, v in dip.items()}}
+                try:
+                    mpo = Mpo.onsite(model, opera, dipole=dipole, dof_set=dof_set)
+                    dofs = list(model.e_dofs) if dof_set is None else dof_set
+                    ref = U.dense_terms(model, [Op(opera, d, dip[d] if dipole else 1.0) for d in dofs])
+                    err = float(np.abs(S.dense(mpo) - ref).max())
+                    led.check(err <= 1e-12, "post:Mpo.onsite:sum_over_the_requested_dofs_with_their_own_dipoles", "Mpo.onsite",
+                              f"onsite({opera!r}, dipole={dipole}, dof_set={dof_set}) differs from sum_d factor_d op_d by {err:.2e}", key, {"dipole": dipole, "dof_set": str(dof_set)}, rep)
+                except Exception as e:
+                    led.check(False, "post:Mpo.onsite:total", "Mpo.onsite", f"raised {type(e).__name__}: {e}", key, {}, rep)
+
+
 def check(run):
     seeds = [run.seed] if run.tier == "quick" else [run.seed, run.seed + 1, run.seed + 2]
     cases = [(m, s, run.tier) for m in models(run.tier) for s in seeds]
     run_cases(run, worker, cases)
+    run_cases(run, w_regroup, [("regroup", s, run.tier) for s in seeds])
+    run_cases(run, w_wrappers, [("wrappers", s, run.tier) for s in seeds])
     from props import C01_sym
     guarded(run, C01_sym.prove_chain)
     run.rule = ("models {spin chains, spin with 1 and 2 quantum numbers, spin+shifted oscillator+electron, Holstein-like, multi-DoF electron sites, single site, "
